@@ -6,7 +6,7 @@ from checks import vmm_b_common as vb
 
 HARNESS = ["vmm/c05_kpdt_test.go"]
 BUGS = ["RWAlways", "NXDropped", "NoOffsetSub", "LastPageFromSize", "RsvSkipLowest", "NoActivate", "UserBit",
-        "NoRangeTest", "RootNotCleared", "RejectMovesCursor"]
+        "NoRangeTest", "RootNotCleared", "RejectMovesCursor", "ZeroSizeVisited"]
 ASSUME = [
     "domain = the property's quantifier: no two sections share a page; a section lies wholly at/above or wholly below the kernel "
     "offset; sections stay clear of the reserved pages, the temporary-mapping page and the recursive window (top-level slot 511); "
@@ -24,7 +24,7 @@ ASSUME = [
 def case_to_replay(events):
     e0 = events[0]
     return {"off": vb.limbs(e0["off"]),
-            "secs": [{"a": vb.limbs(x["a"]), "sz": vb.limbs(x["sz"]), "fl": x["fl"]} for x in e0["secs"]],
+            "secs": [{"a": vb.limbs(x["a"]), "sz": vb.limbs(x["sz"]), "fl": vb.limbs(x["flr"]) if "flr" in x else x["fl"]} for x in e0["secs"]],
             "hist": [{"k": h["k"], "sz": vb.limbs(h["sz"]), "f": vb.limbs(h["f"]), "fl": h["fl"]} for h in e0["hist"]],
             "failat": e0.get("failat", 0)}
 
@@ -73,7 +73,7 @@ def run(ctx):
     # ---- leg T: random section tables at real scale
     trt = os.path.join(ctx.work, "c05_trace_t.ndjson")
     rc, out, _ = ctx.gotest("kernel", "mm/vmm", HARNESS, "TestVerifC05Random",
-                            env={"TRACE_OUT": trt, "NTRACES": 80 if q else 4000, "VERIF_LEG": "T-random"}, timeout=600)
+                            env={"TRACE_OUT": trt, "NTRACES": 80 if q else 2500, "VERIF_LEG": "T-random"}, timeout=600)
     if rc != 0:
         raise vlib.Broken("C05 random harness failed:\n" + out[-3000:])
     # ---- leg V: the TLA+ monitor judges every recorded event (both legs in one batch of TLC processes)
